@@ -32,7 +32,12 @@ CLAIM = {
             "the Jacobian operator: for every index k at which the user function or a LinearOperator product raises "
             "(and for the fault-free run) the user object holds the same tensor objects in the same order with the "
             "same Parameter registration, restore stacks are empty, the state-change lock and the debug flag have their "
-            "previous values, and the caller sees the injected exception.",
+            "previous values, and the caller sees the injected exception. Also: siblings of four member functions with "
+            "different numbers of tensors; assertparams (run by every functional in debug mode) keeps the debug flag and the "
+            "object's tensors (objects holding bfloat16 / int64 / complex tensors between their parameters, method returning "
+            "or raising). Bounded histories on real torch (replay/C10h.py): the user assigns a new tensor to the object "
+            "between the forward call and the backward pass - holds for quad and mcquad, KNOWN FINDING for solve_ivp and the "
+            "rootfinder family (the object is given back its forward-time tensor).",
     "note": "Crash points are enumerated on concrete reference heaps (this is fault enumeration of the real code, not "
             "a symbolic proof). Built-in iterative methods are replaced by a stub that calls the function N=3 times: "
             "they perform no substitution themselves, so the restoration logic under test is independent of N. Stub "
@@ -75,7 +80,7 @@ def _run_unit(name, run):
 
 def replay(name, first_bad):
     if name.startswith("debug"):
-        return kit.concrete_replay("C10", ["debug_flags"])
+        return kit.concrete_replay("C10", ["debug_flags", "debug_mode_faults"])
     if "linop" in name or name.startswith("solve"):
         return kit.concrete_replay("C10", ["linop_shared_tensor"])
     if name.startswith("useobjparams"):
@@ -144,12 +149,21 @@ def unit_useobjparams():
         bad = {}
         n = 0
         for kind in ("em", "nn"):
-            for wrap in (None, "single", "multi"):
+            for wrap in (None, "single", "multi", "multi4"):
                 for pat in H._set_partitions(5):
                     tensors, pool = H._mk_tensors(pat, kind)
                     obj, method, read = (H.make_editable if kind == "em" else H.make_nnmodule)(tensors)
                     objs = [obj]
-                    if wrap == "multi":
+                    if wrap == "multi4":
+                        # four member functions with different numbers of tensors (every member gets its own slice)
+                        ms = [method]
+                        for j, (pt, kd) in enumerate((([0, 1, 1, 2, 0], "nn"), ([0, 0, 0, 1, 1], "em"), ([0, 0, 0, 0, 0], "nn"))):
+                            tj, _ = H._mk_tensors(pt, kd)
+                            oj, mj, _r = (H.make_editable if kd == "em" else H.make_nnmodule)(tj)
+                            objs.append(oj)
+                            ms.append(mj)
+                        pfn = pf.make_sibling(*ms)(lambda x: x)
+                    elif wrap == "multi":
                         t2, _ = H._mk_tensors([0, 1, 1, 2, 0], "em" if kind == "nn" else "nn")
                         obj2, method2, _r = (H.make_editable if kind == "nn" else H.make_nnmodule)(t2)
                         objs.append(obj2)
@@ -241,9 +255,10 @@ def unit_useobjparams():
         c.check("useobjparams.refused_under_a_state_lock_without_unwinding_anything", lock_bad is None, detail=lock_bad or "")
         STATS["runs"] += n
         for kind in ("em", "nn"):
-            for wrap in (None, "single", "multi"):
+            for wrap in (None, "single", "multi", "multi4"):
                 c.check("useobjparams[%s%s].restored_on_normal_and_exceptional_exit_at_every_nesting_level" % (
-                    {"em": "EditableModule", "nn": "nn.Module"}[kind], {None: "", "single": "+sibling", "multi": "+multi_sibling"}[wrap]),
+                    {"em": "EditableModule", "nn": "nn.Module"}[kind], {None: "", "single": "+sibling", "multi": "+multi_sibling",
+                                                                        "multi4": "+sibling_of_four"}[wrap]),
                     (kind, wrap) not in bad, detail=bad.get((kind, wrap), "52 aliasing patterns x 4 fault positions"))
     return _run_unit("useobjparams", run)
 
@@ -320,9 +335,39 @@ def unit_debug_modes():
                 if dm.is_debug_enabled() != init:
                     abad = abad or "assertparams (method %s) leaves the debug flag %s, it was %s" % (how, dm.is_debug_enabled(), init)
                 STATS["distinct"].add(("assertparams", init, how))
+        # ... and the object keeps its own tensors in their own slots, also when it holds tensors that the library does not
+        # treat as parameters (other dtypes) between the ones it does
+        for init in (False, True):
+            for odd in ("bfloat16", "int64", "complex128", "none"):
+                for how in ("returns", "raises"):
+                    nfl += 1
+                    tensors, pool = H._mk_tensors([0, 1, 2, 3, 4], "em")
+                    if odd != "none":
+                        tensors[1] = st.vec("odd", (2,), (0,), dtype=getattr(st, odd))
+                    obj, method, read = H.make_editable(tensors)
+                    cls = type(obj)
+
+                    def meth2(self, *a, how=how):
+                        if how == "raises":
+                            raise UserFault("inside assertparams")
+                        return read()[0]
+                    cls.method = meth2
+                    before = H.snapshot_module(obj)
+                    dm.set_debug_mode(init)
+                    try:
+                        obj.assertparams(obj.method)
+                    except BaseException:    # noqa
+                        pass
+                    after = H.snapshot_module(obj)
+                    if after != before:
+                        abad = abad or "assertparams (object holding a %s tensor, method %s, debug %s) leaves the object with other tensors: %s" % (
+                            odd, how, init, [(a_, b_) for a_, b_ in zip(before, after) if a_ != b_][:2])
+                    if dm.is_debug_enabled() != init:
+                        abad = abad or "assertparams leaves the debug flag changed (object holding a %s tensor)" % odd
+                    STATS["distinct"].add(("assertparams_dtypes", init, odd, how))
         dm.set_debug_mode(False)
         STATS["runs"] += nfl
-        c.check("assertparams_keeps_the_debug_flag_whether_the_method_returns_raises_or_the_check_fails", abad is None, detail=abad or "")
+        c.check("assertparams_keeps_the_debug_flag_and_the_tensors_of_the_object_whether_the_method_returns_raises_or_the_check_fails", abad is None, detail=abad or "")
         dm.set_debug_mode(True)
         c.check("set_debug_mode_sets", dm.is_debug_enabled() is True)
         dm.set_debug_mode(False)
@@ -870,8 +915,26 @@ def unit_symeig():
     return _run_unit("symeig", run)
 
 
+def unit_histories():
+    """bounded (real torch, replay/C10h.py): the user assigns a new tensor to the object between the forward call and the
+    backward pass; after the backward pass the object holds the user's tensor"""
+    import re
+
+    def run():
+        c = ctx()
+        r = kit.concrete_replay("C10h", [], tail=20000, timeout=1200)
+        c.check("bounded[real-torch,history].oracle_ran", r["returncode"] in (0, 1), detail=r["output"][-300:], kind="bounded")
+        found = re.findall(r"ORACLE (\S+): (holds|VIOLATED[^\n]*)", r["output"])
+        for name, verdict in found:
+            c.check("bounded[real-torch,history].%s" % name, verdict == "holds", detail=verdict[:600], kind="bounded")
+        STATS["runs"] += len(found)
+        for name, _ in found:
+            STATS["distinct"].add(("history", name))
+    return _run_unit("histories", run)
+
+
 def units(tier):
-    return [("integrator_backwards", unit_integrator_backwards), ("symeig", unit_symeig),
+    return [("integrator_backwards", unit_integrator_backwards), ("symeig", unit_symeig), ("histories", unit_histories),
             ("useobjparams", unit_useobjparams), ("debug_modes", unit_debug_modes), ("uselinopparams", unit_uselinopparams),
             ("rootfinder_family", unit_rootfinder_family), ("solve", unit_solve), ("integrators", unit_integrators),
             ("jac", unit_jac)]
